@@ -2209,8 +2209,14 @@ fn drive_c08(sc: &E2Scenario, rep: &mut RunReport) {
                 // tree contains a fragment that no operation spreads (the pinned checker does not
                 // look into such a fragment, so anything may be wrong inside it)
                 let after_check = r.stderr_str().contains("'check' finished");
+                let editor_slip = matches!(c.kind.as_str(), "token_subst" | "token_insert" | "paste_spread");
                 let class = if after_check && has_uncovered_fragment(sc, &t) {
                     "C08.K1-unchecked-unspread-fragment".to_string()
+                } else if after_check && editor_slip && r.panic_site().starts_with("crates/printer/") {
+                    // an editor slip produced a document that is wrong in a way the checker does not
+                    // implement (checker completeness: C03 / C05, not claimed), and a printer relied
+                    // on the checker: one known family, whatever the printer file
+                    "C08.K2-checker-gap-after-editor-slip".to_string()
                 } else if after_check && !r.panic_site().starts_with("exit:") && r.panic_site() != "cli-timeout" {
                     // `check` accepted the corrupted document and a printer then hit one of its
                     // "the checker guarantees this" expectations: classified by source file
